@@ -259,11 +259,12 @@ Begin == /\ phase = "init"
 
 Scanning == phase \in {"scan1", "scan2"}
 \* trd.tr.Next(): the entry at pos; during the very first pass the environment decides which one it is
-NextEntry(e) == IF pos <= Len(arch) THEN e = arch[pos] /\ UNCHANGED <<arch, rest>>
-                ELSE e \in rest /\ arch' = Append(arch, e) /\ rest' = rest \ {e}
+Cur == IF pos <= Len(arch) THEN {arch[pos]} ELSE rest
+NextEntry(e) == IF pos <= Len(arch) THEN UNCHANGED <<arch, rest>>
+                ELSE arch' = Append(arch, e) /\ rest' = rest \ {e}
 MoreEntries == pos <= Len(arch) \/ rest # {}
 
-ScanLink == \E e \in sc.entries :
+ScanLink == \E e \in Cur :
   /\ Scanning /\ MoreEntries /\ NextEntry(e)
   /\ e.kind \in {"sym", "hard"}
   /\ LET name == Clean(e.name)
@@ -282,7 +283,7 @@ ScanLink == \E e \in sc.entries :
 ScanFile(ht) ==
   /\ Scanning /\ MoreEntries
   /\ ht = "none" \/ \E x \in DOMAIN imp.h : imp.h[x].t = ht      \* (cheap pre-test, implied by FirstHandled = ht)
-  /\ \E e \in sc.entries :
+  /\ \E e \in Cur :
        /\ NextEntry(e)
        /\ e.kind \in {"file", "dir"}
        /\ LET name == Clean(e.name) IN
